@@ -451,39 +451,71 @@ func (gb *gcpBalancer) leastBusyReadyRef() *subConnRef {
 }
 
 func (gb *gcpBalancer) getSubConnRoundRobin(ctx context.Context) *subConnRef {
-	gb.mu.RLock()
-	if len(gb.scRefList) == 0 {
-		gb.mu.RUnlock()
-		gb.newSubConn()
-		gb.mu.RLock()
-	}
-	scRef := gb.scRefList[atomic.AddUint64(&gb.rrRefId, 1)%uint64(len(gb.scRefList))]
-
-	if state := gb.scStates[scRef.subConn]; state == connectivity.Ready {
-		gb.mu.RUnlock()
-		return scRef
-	} else {
-		grpclog.Infof("grpcgcp.gcpBalancer: scRef is not ready: %v", state)
-	}
-
-	ticker := time.NewTicker(time.Millisecond * 100)
-	defer ticker.Stop()
-
-	// Wait until SubConn is ready or call context is done.
-	for gb.scStates[scRef.subConn] != connectivity.Ready {
-		sigChan := scRef.stateSignal
-		gb.mu.RUnlock()
-		select {
-		case <-ctx.Done():
-			return scRef
-		case <-ticker.C:
-		case <-sigChan:
+	var ticker *time.Ticker
+	defer func() {
+		if ticker != nil {
+			ticker.Stop()
 		}
-		gb.mu.RLock()
-	}
-	gb.mu.RUnlock()
+	}()
 
-	return scRef
+	gb.mu.RLock()
+	for {
+		if len(gb.scRefList) == 0 {
+			gb.mu.RUnlock()
+			gb.newSubConn()
+			gb.mu.RLock()
+			if len(gb.scRefList) == 0 {
+				// Nothing to rotate over (the pool is empty and cannot be re-created right now).
+				gb.mu.RUnlock()
+				return nil
+			}
+		}
+		scRef := gb.scRefList[atomic.AddUint64(&gb.rrRefId, 1)%uint64(len(gb.scRefList))]
+
+		if state := gb.scStates[scRef.subConn]; state == connectivity.Ready {
+			gb.mu.RUnlock()
+			return scRef
+		} else {
+			grpclog.Infof("grpcgcp.gcpBalancer: scRef is not ready: %v", state)
+		}
+
+		if ticker == nil {
+			ticker = time.NewTicker(time.Millisecond * 100)
+		}
+
+		// Wait until SubConn is ready or call context is done. A channel that leaves the pool
+		// meanwhile (its connection was shut down) can never become ready: stop waiting for it
+		// and take the next one.
+		for gb.scRefs[scRef.subConn] == scRef && gb.scStates[scRef.subConn] != connectivity.Ready {
+			sigChan := scRef.stateSignal
+			gb.mu.RUnlock()
+			select {
+			case <-ctx.Done():
+				return scRef
+			case <-ticker.C:
+			case <-sigChan:
+			}
+			gb.mu.RLock()
+		}
+		if gb.scRefs[scRef.subConn] == scRef {
+			gb.mu.RUnlock()
+			return scRef
+		}
+	}
+}
+
+// removeFromRefList takes a subConnRef that left the pool out of the round-robin list.
+// Must be called holding the mutex lock.
+func (gb *gcpBalancer) removeFromRefList(ref *subConnRef) {
+	for i, r := range gb.scRefList {
+		if r == ref {
+			// A new slice: a round-robin pick may be reading the old one under the read lock.
+			l := make([]*subConnRef, 0, len(gb.scRefList)-1)
+			l = append(l, gb.scRefList[:i]...)
+			gb.scRefList = append(l, gb.scRefList[i+1:]...)
+			return
+		}
+	}
 }
 
 // bindSubConn binds the given affinity key to an existing subConnRef.
@@ -579,6 +611,17 @@ func (gb *gcpBalancer) UpdateSubConnState(sc balancer.SubConn, scs balancer.SubC
 		delete(gb.scRefs, oldSc)
 		delete(gb.scStates, oldSc)
 		gb.scRefs[sc] = scRef
+		inList := false
+		for _, r := range gb.scRefList {
+			if r == scRef {
+				inList = true
+			}
+		}
+		if !inList {
+			// The old SubConn was shut down while the refresh was in flight: with the replacement
+			// the channel is back in the pool.
+			gb.scRefList = append(gb.scRefList, scRef)
+		}
 		// Keys bound (or temporarily mapped) to the old SubConn follow the subConnRef.
 		for k, v := range gb.affinityMap {
 			if v == oldSc {
@@ -620,6 +663,13 @@ func (gb *gcpBalancer) UpdateSubConnState(sc balancer.SubConn, scs balancer.SubC
 	case connectivity.Idle:
 		sc.Connect()
 	case connectivity.Shutdown:
+		if ref := gb.scRefs[sc]; ref != nil {
+			// The channel leaves the pool: round-robin picks must not be assigned to it any more,
+			// and those waiting for it have to notice.
+			gb.removeFromRefList(ref)
+			close(ref.stateSignal)
+			ref.stateSignal = make(chan struct{})
+		}
 		delete(gb.scRefs, sc)
 		delete(gb.scStates, sc)
 	}
